@@ -2125,7 +2125,7 @@ func ruleSibRegexpScan(c *Ctx, r *R) {
 	for _, f := range pp.Syntax {
 		for _, d := range f.Decls {
 			fd, ok := d.(*ast.FuncDecl)
-			if !ok || fd.Recv == nil || fd.Body == nil || (fd.Name.Name != "scan" && fd.Name.Name != "scanGroup") {
+			if !ok || fd.Recv == nil || fd.Body == nil {
 				continue
 			}
 			if n := derefNamed(info.TypeOf(fd.Recv.List[0].Type)); n == nil || n.Obj().Name() != "regExpParser" {
@@ -2172,7 +2172,50 @@ func ruleSibRegexpScan(c *Ctx, r *R) {
 			})
 		}
 	}
-	top, grp := cases["scan"], cases["scanGroup"]
+	// one-statement wrappers (func (p) scanGroup() { p.scanGroupAt(1) }) stand for what they call
+	wrapper := map[string]string{}
+	for _, f := range pp.Syntax {
+		for _, d := range f.Decls {
+			fd, ok := d.(*ast.FuncDecl)
+			if !ok || fd.Recv == nil || fd.Body == nil || len(fd.Body.List) != 1 {
+				continue
+			}
+			if es, ok := fd.Body.List[0].(*ast.ExprStmt); ok {
+				if ce, ok := es.X.(*ast.CallExpr); ok {
+					if s2, ok := ce.Fun.(*ast.SelectorExpr); ok && strings.HasPrefix(s2.Sel.Name, "scan") {
+						wrapper[fd.Name.Name] = s2.Sel.Name
+					}
+				}
+			}
+		}
+	}
+	for _, cs := range cases {
+		for ch, calls := range cs {
+			canon := map[string]bool{}
+			for name := range calls {
+				if w, ok := wrapper[name]; ok {
+					name = w
+				}
+				canon[name] = true
+			}
+			cs[ch] = canon
+		}
+	}
+	// by role, not by name: of the methods whose character switch has a case for '(' the one that also handles ')' is the
+	// top-level loop, the other one the group loop
+	var top, grp map[string]map[string]bool
+	for name, cs := range cases {
+		if _, hasOpen := cs["("]; !hasOpen {
+			continue
+		}
+		if _, hasClose := cs[")"]; hasClose {
+			top = cs
+			sites["scan"] = sites[name]
+		} else {
+			grp = cs
+			sites["scanGroup"] = sites[name]
+		}
+	}
 	if top == nil || grp == nil {
 		r.undecided("unresolved:switches", "-", "UNRESOLVED: the character switches of regExpParser.scan / scanGroup were not found")
 		return
@@ -2234,5 +2277,72 @@ func ruleCloneOtto(c *Ctx, r *R) {
 		r.ok("fresh", c.Pos(fn.Pos()), "the copy is built from the cloned runtime only")
 	} else {
 		r.bad("fresh", c.Pos(instrPos(at)), "(*Otto).Copy "+bad+": the copy inherits the template's Interrupt channel, so an interrupt sent to one of them can be consumed by the other")
+	}
+}
+
+// ---- LABEL-consume -----------------------------------------------------------------------------------------------------
+
+func init() {
+	register(&Rule{ID: "LABEL-consume", Props: []string{"C01", "C02"}, Min: 1,
+		Doc: "S (ES5 §12.12): a labelled statement whose body completes with (break, V, L), L being its own label, completes normally. Blocks, loops and switches match the pending label set themselves, but `L: try {..} catch {..}`, `L: if (..) {..}` and `L: with (..) {..}` do not - so the evaluator's arm for the labelled statement itself must compare the target of a break result with its own label. Without it `break L` from a catch block skips the rest of the program, and inside a function the call returns the interpreter's internal empty value, on which typeof panics in the host",
+		Run: ruleLabelConsume})
+}
+
+func ruleLabelConsume(c *Ctx, r *R) {
+	n := 0
+	for _, fn := range c.AllSrcFuncs("") {
+		if fn.Parent() != nil {
+			continue
+		}
+		// the evaluator: reads the statement field of a nodeLabelledStatement
+		reads := false
+		for _, b := range fn.Blocks {
+			for _, ins := range b.Instrs {
+				if fa, ok := ins.(*ssa.FieldAddr); ok && isFieldAddr(fa, "nodeLabelledStatement", "statement") {
+					if fn.Signature.Recv() != nil && typeIs(fn.Signature.Recv().Type(), ottoPath, "runtime") {
+						reads = true
+					}
+				}
+			}
+		}
+		if !reads {
+			continue
+		}
+		n++
+		matches := false
+		for _, g := range withAnon(fn) {
+			for _, b := range g.Blocks {
+				for _, ins := range b.Instrs {
+					bo, ok := ins.(*ssa.BinOp)
+					if !ok || bo.Op != token.EQL {
+						continue
+					}
+					isLabel := func(v ssa.Value) bool {
+						a := loadAddr(v)
+						return a != nil && isFieldAddr(a, "nodeLabelledStatement", "label")
+					}
+					isTarget := func(v ssa.Value) bool {
+						if f, ok := v.(*ssa.Field); ok {
+							if st, ok := f.X.Type().Underlying().(*types.Struct); ok && st.Field(f.Field).Name() == "target" {
+								return true
+							}
+						}
+						if a := loadAddr(v); a != nil {
+							if _, fld := fieldOfAddr(a); fld != nil && fld.Name() == "target" {
+								return true
+							}
+						}
+						return false
+					}
+					if (isLabel(bo.X) && isTarget(bo.Y)) || (isLabel(bo.Y) && isTarget(bo.X)) {
+						matches = true
+					}
+				}
+			}
+		}
+		r.check(matches, ssaFuncName(fn), c.Pos(fn.Pos()), "the labelled-statement arm matches a break result against its own label", "§12.12: the evaluator of labelled statements never compares a break result's target with the statement's own label: `L: try { .. } catch (e) { break L }` (and labelled if / with) lets the break escape - the rest of the program is skipped, and a function containing it returns the internal empty value (typeof of it is a host panic)")
+	}
+	if n == 0 {
+		r.undecided("unresolved:labelled-evaluator", "-", "UNRESOLVED: no runtime method reads nodeLabelledStatement.statement")
 	}
 }
